@@ -642,6 +642,20 @@ def check_sum_case(T, sc, stats):
             if rc != 0 or so.decode("utf-8", "replace") != wantc:
                 return ("asconsum -c on unmodified files, list %s%s, printed %r (rc=%d)" % (["", "without a final newline", "with CR LF line ends", "with CR LF line ends and no final newline"][shape],
                         " on standard input" if sc["mod"]["pos"] & 4 else "", so.decode("utf-8", "replace")[:200], rc), {"step": "check-ok-shape"})
+        # exactly 256 (and 512) failing entries: the exit status is not a count
+        if sc["mod"]["pos"] & 64:
+            for nbad in (256, 512):
+                with open(os.path.join(wd, "d5.ascon"), "w") as f:
+                    for i in range(nbad):
+                        f.write("%s  missing_%d.bin\n" % (digests[0], i))
+                rc, so, se = runp([T["asconsum"]] + ([flag] if flag else []) + ["-c", "d5.ascon"], wd)
+                stats["runs"] += 1
+                if rc == 0:
+                    return ("asconsum -c with %d listed files missing exited 0" % nbad, {"step": "check-256"})
+            rc, so, se = runp([T["asconsum"]] + ([flag] if flag else []) + ["missing_%d.bin" % i for i in range(256)], wd)
+            stats["runs"] += 1
+            if rc == 0:
+                return ("asconsum with 256 operands that do not exist exited 0", {"step": "hash-256"})
         # a file that opens but cannot be read (a directory: fopen succeeds, the first read fails): no digest, no OK, non-zero status
         if sc["mod"]["pos"] & 32:
             os.mkdir(os.path.join(wd, "adir"))
